@@ -21,6 +21,9 @@ import YarlProofs.C08Multi
   `gen` = eviction policies and capacities; `valOf (specHandles (yarlMSem e hf) [] ops) h` = the five stored strings of
   the URL that handle `h` denotes after `ops` in the cache-free specification (`none`: no such object);
   `cmpUrl c a b` = `a.beq b`, `!a.beq b`, `a.lt b`, `a.le b`, `a.gt b`, `a.ge b` for `c` = eq, ne, lt, le, gt, ge.
+  Continued in C10HeadlineMore3.lean (GAPS 1: the operators against ARBITRARY Python objects, model-level over
+  YarlModel/Dyn.lean — C10Dyn.lean; GAPS 4, 5: an independent specification of Python's tuple / str comparison and the
+  remaining order laws — C10Order.lean; GAPS 2 across the two constructor modes — C10ReachE.lean).
 -/
 set_option linter.unusedVariables false
 namespace Yarl
@@ -82,7 +85,7 @@ end CacheMachine
 
 /-! ## Sentence 1c — "and equality is reflexive, symmetric, transitive and never holds against non-URL objects" -/
 
-/-- "equality is reflexive, symmetric, transitive" ("never holds against non-URL objects": GAPS 1) -/
+/-- "equality is reflexive, symmetric, transitive" ("never holds against non-URL objects": GAPS 1, C10HeadlineMore3.lean) -/
 theorem C10_headline_equality_is_equivalence :
     (∀ a : Url, a.beq a = true) ∧ (∀ a b : Url, a.beq b = true → b.beq a = true) ∧
     (∀ a b c : Url, a.beq b = true → b.beq c = true → a.beq c = true) :=
@@ -145,28 +148,69 @@ theorem C10_headline_equal_urls_may_differ_in_str :
 
 /-
 GAPS:
- 1. "never holds against non-URL objects": NOT MODELLED.  `Url.beq` is only defined between two `Url`s; the source's
-    `if type(other) is not URL: return NotImplemented` (in `__eq__` and the four ordering methods — which also makes
-    `url < 1` raise TypeError and `url == subclass_instance` False) has no counterpart in the model and no theorem.
+ 1. CLOSED, MODEL-LEVEL, by C10_eq_non_url, C10_eq_iff_url, C10_ne_eq_not, C10_eq_non_url_instances, C10_order_non_url,
+    C10_order_answers_iff_url, C10_dyn_agrees_on_urls, C10_dyn_reflected_consistent, C10_dyn_equality_is_equivalence,
+    C10_dyn_trichotomy, C10_dyn_le_iff (C10Dyn.lean, over YarlModel/Dyn.lean), see C10_headline_never_equal_to_non_url,
+    C10_headline_equal_iff_url_with_equal_key, C10_headline_never_equal_instances, C10_headline_ordering_against_non_url_raises,
+    C10_headline_operators_are_model_relations, C10_headline_operator_equality_is_equivalence, C10_headline_operator_trichotomy,
+    C10_headline_operator_le_is_lt_or_eq (C10HeadlineMore3.lean).  (Was: "never holds against non-URL objects": NOT MODELLED.)
+    Proved: the source's `if type(other) is not URL: return NotImplemented` (in `__eq__` and the four ordering methods) together
+    with the interpreter's fallback (reflected method of the other operand, then identity for `==` / `!=`, TypeError for the
+    ordering operators) is transcribed as `dynEq` / `dynNe` / `dynLt` … over the object universe `PyObj`; `u == o` is False and
+    `u != o` True for EVERY `o` that is not a URL (str — also `str(u)` —, str subclass, the key 5-tuple, the 5-tuple /
+    SplitResult of the parts, None, bool / int / float, bytes, tuple / list / dict — also containing the URL —, `object()`);
+    `u == o` holds iff `o` is a URL with the same key tuple; `u < o`, `<=`, `>`, `>=` raise TypeError for every non-URL `o`, answer
+    exactly for URLs, and TypeError is the only error; on two URLs the operators ARE `beq` / `lt` / `le` / `gt` / `ge`, so every
+    theorem of this file transfers (equivalence and trichotomy spelled out for the operators).
+    MODEL-LEVEL means: Dyn.lean is a hand transcription of Python-level dispatch; it is tied to CPython / the library only by
+    the run-time probe table (the `example` rows at the end of C10Dyn.lean, compared with the real library, both quoter backends,
+    on every run), NOT by proof.  ASSUMPTION (stated in Dyn.lean, no theorem): `.other` objects and str subclasses do not
+    override the REFLECTED comparison methods; an object whose `__eq__` answers True to everything (`unittest.mock.ANY`)
+    compares equal to a URL through the interpreter's fallback — outside `PyObj`, and no library can prevent it.  Object kinds
+    without a tag in `PyObj` (instances of a subclass of URL, sets / frozensets, user classes with comparison overrides) are not
+    covered.
  2. Equality is on the STORED strings.  No theorem relates `==` to semantic identity: an explicit default port
     ("http://a:80/" vs "http://a/", see C03_default_port_counterexample), different spellings of an IPv6 host, or
     percent-encoding variants that survived `encoded=True` compare unequal; the property text does not ask for more,
     but "authority … equal" means the netloc TEXT, not (user, password, host, port).
+    SHARPENED by C10_reachE_equality_is_on_stored_text (C10ReachE.lean), see C10_headline_equality_is_on_stored_text_across_modes
+    (C10HeadlineMore3.lean): a witness over `ReachE` (the closure of ALL entry points, `encoded=True` included) —
+    `URL('http://h/a b') != URL('http://h/a b', encoded=True)` while `URL('http://h/a%20b') == URL('http://h/a%20b', encoded=True)`
+    although only the first record carries pre-computed cache entries.  C10ReachE.lean records that nothing has to be lifted:
+    every C10 law here is about ARBITRARY `Url` records without hypothesis, hence holds of every reachable URL, `encoded=True`
+    ones included (the one-line corollaries over `ReachE` are not stated).
  3. PARTLY CLOSED by C08_multi_yarl_hash_cmp (C08Multi.lean), see C10_headline_hash_and_comparisons_after_any_history:
     the memoisation of the hash in `_cache["hash"]` is now modelled (YarlModel/CacheMulti.lean) and proved harmless —
-    after any history `hash(url)` is `hf (eqKey u)`.  Remains open, as before: the model has no hash function; the
+    after any history `hash(url)` is `hf (eqKey u)`.  Also, MODEL-LEVEL (Dyn.lean, see item 1 for what that means), by
+    C10_dyn_hash_total, C10_dyn_hash_coherent, C10_dyn_hash_collides_with_key_tuple, C10_dyn_hash_eq_errors (C10Dyn.lean), see
+    C10_headline_operator_equal_implies_equal_hash, C10_headline_hash_converse_fails_for_key_tuple (C10HeadlineMore3.lean):
+    `hash(u)` never raises and is `hf (keyTuple u)` for an arbitrary object hash `hf`; `u == o` implies `hash(u) == hash(o)`
+    for every object `o`; the converse is FALSE over all objects (`hash(u)` equals the hash of the key 5-tuple, which is not
+    `==` to `u`), as Python allows.  Remains open, as before: the model has no hash function; the
     theorem is "any function of the key tuple agrees on equal URLs".  That `__hash__` uses exactly this tuple (incl.
-    the "/" substitution) is by construction of `eqKey` from the source, not checked by a generated table.
+    the "/" substitution) is by construction of `eqKey` / `keyTuple` from the source, not checked by a generated table.
  4. PARTLY CLOSED by C08_multi_yarl_hash_cmp / C08_multi_yarl_cmp_of_sort_key (C08Multi.lean), see
     C10_headline_hash_and_comparisons_after_any_history, C10_headline_comparisons_from_sort_keys: `_sort_key` as a
     memoised `cached_property` is now an entry of the cache machine, and the comparisons answer `cmpUrl` of the stored
-    parts after any history.  Remains open, as before: `<=`, `>`, `>=` are definitions in the model (`le := lt ||
-    key-equality` etc.), not separate transcriptions of `_sort_key <=`: the identities `t1 <= t2 ↔ t1 < t2 ∨ t1 = t2`
-    for Python tuples of str are assumed, not proved (no model of Python tuple comparison other than `ltParts`).
-    `_sort_key` is the same tuple as `eqKey` in the source (by inspection of `_url.py`), not tied to the model by a
-    generated fact.
- 5. String order is `ltStr` on code points; Python compares str by code point as well, so lone surrogates and non-BMP
-    characters are ordered consistently — no generated fact ties this to the implementation.
+    parts after any history.  The part "`<=`, `>`, `>=` are definitions in the model …: the identities `t1 <= t2 ↔ t1 < t2 ∨
+    t1 = t2` for Python tuples of str are assumed, not proved (no model of Python tuple comparison other than `ltParts`)" is
+    CLOSED by C10_order_eq_pyTuple, C10_ltParts_eq_pyTupleLt, C10_pyTupleLe_iff, C10_pyTupleGt_Ge (C10Order.lean), see
+    C10_headline_operators_are_python_tuple_comparisons, C10_headline_python_tuple_identities (C10HeadlineMore3.lean): there
+    is now an INDEPENDENT specification of Python's rich comparison of sequences (`PySpec.seqCmp`, written from the language
+    reference §6.10.1 "Value comparisons"), instantiated for str (code points) and for tuples of str, with all FOUR ordering
+    operators transcribed separately; `Url.lt` / `le` / `gt` / `ge` are proved equal to `pyTupleLt` / `Le` / `Gt` / `Ge` of the two
+    `_sort_key` tuples (`==` / `!=` to (in)equality of the tuples), and the three identities are theorems about the
+    specification for tuples of ANY length.  The order laws missing from this file (`==` implies `<=` and `>=`, `<=` reflexive,
+    `>` / `>=` in iff form, mixed `<` / `<=` transitivity): C10_order_laws, C10_eq_le_ge, C10_le_refl, C10_lt_le_trans, see
+    C10_headline_order_laws, C10_headline_equal_implies_le_ge_and_mixed_transitivity.
+    STILL OPEN: `PySpec.seqCmp` is a hand transcription of the language reference, not tied to CPython by a generated fact (at run
+    time only the three URL-against-URL ordering rows of the probe table of C10Dyn.lean, ASCII texts, exercise it).  `_sort_key` is the same tuple as `eqKey` in the source (by inspection of `_url.py`; `sortKey u` is DEFINED as the list
+    of the five strings of `eqKey u`), not tied to the model by a generated fact.
+ 5. PARTLY CLOSED by C10_pyStr_order (C10Order.lean), see C10_headline_string_order_is_code_point_order (C10HeadlineMore3.lean):
+    the model's string order `ltStr` IS the independent specification's `<` on code-point sequences (`PySpec.pyStrCmp .lt`; a
+    code point is a `Nat`, so lone surrogates and non-BMP characters are ordered by their number), and `<=` / `>` / `>=` on str
+    satisfy the same three identities.  STILL OPEN, as before: Python compares str by code point as well (language reference) —
+    no generated fact ties this to the implementation (the ordering rows of the probe table of C10Dyn.lean use ASCII texts only).
  6. CLOSED (as a counterexample) by C10_headline_equal_urls_may_differ_in_str (here; also
     C07_headline_recompose_fails_for_empty_path_indistinguishable, C07HeadlineMore.lean, for constructor results).
     Interaction with other properties (not C10's text, but commonly expected): `a == b → str(a) == str(b)` is false
